@@ -8,7 +8,7 @@ KIND = {'tcp': 'KTcp', 'rtureq': 'KRtuRequest', 'rtursp': 'KRtuResponse'}
 FIN = {'eof': 'FinEof', 'pending': 'FinPending', 'err': 'FinErr'}
 CASE_TYPE = 'framing_kind * bool * fin * list (list N)'
 # model | Spec  (Spec only defined for stop mode: "-" otherwise)
-FN = 'eval_case'
+FN = 'eval_case_tr'
 
 
 # ---------------------------------------------------------------- CRC-16/MODBUS (third, independent implementation)
@@ -195,11 +195,11 @@ def case_to_json(case):
 def strip_stats(line):
     out, _, st = line.partition(';')
     stats = dict(kv.split('=') for kv in st.split(';')) if st else {}
-    return out, {k: int(v) for k, v in stats.items()}
+    return out, {k: (v if k == 'offered' else int(v)) for k, v in stats.items()}
 
 
 def evaluate(ctx, cases, decode='min'):
-    """-> list of (impl, model, spec, stats)"""
+    """-> list of (impl, model, spec, stats); stats['offered'] / stats['model_offered'] = space offered per read"""
     if not cases:
         return []
     impl = ctx.harness('frames', [to_line(c) for c in cases], args=['--stats', '--decode', decode], shards=8)
@@ -207,7 +207,8 @@ def evaluate(ctx, cases, decode='min'):
     res = []
     for i, b in zip(impl, both):
         out, stats = strip_stats(i)
-        model, _, spec = b.partition('|')
+        model, spec, trace = b.split('|')
+        stats['model_offered'] = trace
         res.append((out, model, spec, stats))
     return res
 
@@ -241,8 +242,8 @@ def ending_class(out):
 
 def compare(ctx, cases, results, what):
     """judge every case; report the first (shrunk) disagreement of each kind. Returns (#spec, #model mismatches)."""
-    n_spec = n_model = 0
-    for c, (impl, model, spec, _) in zip(cases, results):
+    n_spec = n_model = n_buf = 0
+    for c, (impl, model, spec, st) in zip(cases, results):
         kind, mode = c[0], c[1]
         if mode == 'stop' and impl != spec:
             n_spec += 1
@@ -266,9 +267,32 @@ def compare(ctx, cases, results, what):
                               f'{what}: implementation and model disagree: impl={i2[:200]} model={m2[:200]}',
                               {'cases': [case_to_json(small)], 'impl': i2, 'model': m2, 'spec': s2, 'original_case': case_to_json(c),
                                'harness_line': to_line(small)}, no_failing_input=(mode == 'stop'))
-    return n_spec, n_model
+        elif st.get('offered', '') != st.get('model_offered', '') and 'PANIC' not in impl:
+            # same frames, but the ReadBuffer offered other amounts of space than the model's begin/end indices imply
+            n_buf += 1
+            if n_buf == 1:
+                ctx.violation(f'{kind}.buffer-indices-differ-from-model',
+                              f'{what}: same frames, but the space offered per read differs: impl={st.get("offered", "")[:120]} model={st.get("model_offered", "")[:120]}',
+                              {'cases': [case_to_json(c)], 'impl': impl, 'model': model, 'spec': spec, 'impl_offered': st.get('offered'),
+                               'model_offered': st.get('model_offered'), 'harness_line': to_line(c)}, no_failing_input=True)
+    return n_spec, n_model + n_buf
 
 
 def evaluate_impl_only(ctx, cases, decode):
     impl = ctx.harness('frames', [to_line(c) for c in cases], args=['--decode', decode], shards=8)
     return [strip_stats(i)[0] for i in impl]
+
+
+def load_corpus(prop, name):
+    """corpus/<prop>/<name>: one harness input line per case (minimized past disagreements, e.g. the
+    shrunk cases that killed the mutants tried during development); always run first"""
+    import os
+    path = os.path.join(os.path.dirname(os.path.dirname(os.path.dirname(os.path.abspath(__file__)))), 'corpus', prop, name)
+    if not os.path.exists(path):
+        return []
+    return [l.strip() for l in open(path) if l.strip() and not l.startswith('#')]
+
+
+def case_from_line(line):
+    parts = line.split()
+    return (parts[0], parts[1], parts[2], [b'' if c == '-' else bytes.fromhex(c) for c in parts[3:]])
